@@ -322,6 +322,12 @@ class Interp:
         self.tmp = []
         self.default_schema = default_schema
         self.trace = []
+        # an interpretation that was interrupted (per-case time guard) may have left temporary tables behind on this connection
+        try:
+            for (name,) in list(con.execute("select name from sqlite_temp_master where type = 'table' and name like 'df_%'")):
+                con.execute(f'DROP TABLE IF EXISTS temp.{q(name)}')
+        except Exception:
+            pass
 
     # -------------------------------------------------------------- helpers
     def integration_names(self):
